@@ -23,5 +23,17 @@ def put(s,tag,body):
     i=s.index(a)+len(a); j=s.index(b)
     return s[:i]+'\n'+body+'\n'+s[j:]
 s=put(s,'scout-fixed',fixed_tbl); s=put(s,'open-findings',open_tbl)
+import collections
+cnt=collections.Counter(f['property'] for f in d['findings'])
+fixedcnt=collections.Counter(re.match(r'fixed: property=(\S+)',e).group(1) for e in d['fixed'] if re.match(r'fixed: property=(\S+)',e))
+for pid in ['C%02d'%i for i in range(1,21)]:
+    m=re.search(r'^### %s — .*$'%pid,s,re.M)
+    if not m: continue
+    line='**Findings (§7, §11).** repaired under this property: %d; open (recorded, §11.2): %d.'%(fixedcnt.get(pid,0),cnt.get(pid,0))
+    n=re.search(r'^##+ ',s[m.end():],re.M)
+    end=m.end()+n.start()
+    sec=s[m.end():end]
+    sec2=re.sub(r'^\*\*Findings \(§7, §11\)\.\*\* .*\n','',sec,flags=re.M).rstrip('\n')+'\n'+line+'\n\n'
+    s=s[:m.end()]+sec2+s[end:]
 open('/verif/DESIGN.md','w').write(s)
 print('fixed rows',fixed_tbl.count('\n')-1,'open rows',open_tbl.count('\n')-1)
